@@ -38,11 +38,20 @@ type specEnv struct {
 // specEnv for the function under verification.
 func (e *Enc) specEnv(old, cur *State, results []Term) *specEnv {
 	se := &specEnv{e: e, old: old, cur: cur, binds: map[string]specVal{}, fn: e.fn, pkg: e.fn.Pkg.Pkg}
-	for _, p := range e.fn.Params {
+	for i, p := range e.fn.Params {
 		se.binds[p.Name()] = specVal{t: e.vals[p], typ: p.Type()}
+		e.prog.aliasName(se.binds, e.fn, "params", i, p.Name())
 	}
-	for _, fv := range e.fn.FreeVars {
+	for i, fv := range e.fn.FreeVars {
 		se.binds[fv.Name()] = specVal{t: e.vals[fv], typ: fv.Type(), cell: true}
+		e.prog.aliasName(se.binds, e.fn, "freevars", i, fv.Name())
+	}
+	if e.inl == "" {
+		for n, v := range e.extraBinds {
+			if _, taken := se.binds[n]; !taken {
+				se.binds[n] = v
+			}
+		}
 	}
 	if results != nil {
 		sig := e.fn.Signature.Results()
